@@ -192,3 +192,54 @@ def abstract_subterm(prog, path, node, bound, rng, fresh="zz_abs"):
     q = copy.deepcopy(prog)
     q["mods"][m] = stmts
     return q
+
+
+def alpha_rename_each(prog, fresh_suffix="_ar"):
+    """one program per binder (function parameter or rec binder) of the main module: that binder and the uses it binds are
+    renamed to a fresh name (alpha-conversion of a single binder; every other spelling stays, so coincidences of names
+    between callers and callees, or between nested binders, are broken one at a time)"""
+    m = prog["main"]
+    out = []
+
+    def rename_in(n, old, new):
+        """rename the free occurrences of `old` in n"""
+        n = dict(n)
+        if n["k"] == "var" and not n["q"] and n["s"] == old:
+            n["s"] = new
+            return n
+        if n["k"] == "rec" and n["s"] == old:
+            return n                      # shadowed inside
+        n["a"] = [rename_in(c, old, new) for c in n["a"]]
+        return n
+
+    def recs(n, path):
+        if n["k"] == "rec":
+            yield path, n
+        if n["k"] == "decl":
+            yield from recs(n["a"][n["n"]], path + [n["n"] + 1])
+            return
+        for i, c in enumerate(n["a"]):
+            yield from recs(c, path + [i + 1])
+    stmts = prog["mods"][m]
+    for si, st in enumerate(stmts):
+        if st["k"] == "decl":
+            for j in range(st["n"]):
+                old = st["a"][j]["s"]
+                new = old + fresh_suffix
+                st2 = copy.deepcopy(st)
+                st2["a"][j]["s"] = new
+                # a later parameter of the same name would shadow: not generated by the families
+                st2["a"][st["n"]] = rename_in(st2["a"][st["n"]], old, new)
+                q = copy.deepcopy(prog)
+                q["mods"][m][si] = st2
+                out.append(q)
+        for path, r in recs(st, [si + 1]):
+            old = r["s"]
+            new = old + fresh_suffix
+            r2 = dict(copy.deepcopy(r))
+            r2["s"] = new
+            r2["a"] = [rename_in(c, old, new) for c in r2["a"]]
+            q = copy.deepcopy(prog)
+            q["mods"][m] = replace_at(q["mods"][m], path, r2)
+            out.append(q)
+    return out
